@@ -663,10 +663,11 @@ def file_case(rng):
     valid = "SOLUTION 1\n pH 7\n Na 1\n Cl 1\nSELECTED_OUTPUT 1\n -totals Na\nUSER_PUNCH 1\n -headings h\n 10 PUNCH 1\nDUMP\n -all\nEND\n"
     r = rng.random()
     p = rng.choice(BAD_PATHS)
+    pin = p if not p.startswith("/dev/full") else "/dev/null"           # /dev/full is an endless stream of NULs when *read*
     if r < 0.2:
-        return dict(kind="runfile-bad-path", ops=[("runfile_path", p)])
+        return dict(kind="runfile-bad-path", ops=[("runfile_path", pin)])
     if r < 0.4:
-        return dict(kind="loaddb-bad-path", ops=[("loaddb_path", p)])
+        return dict(kind="loaddb-bad-path", ops=[("loaddb_path", pin)])
     if r < 0.7:
         which = rng.sample(["out", "err", "log", "dump", "sel"], rng.randint(1, 5))
         sw = [({"out": "outfile", "err": "errfile", "log": "logfile", "dump": "dumpfile", "sel": "selfile"}[w], 1) for w in which]
